@@ -1103,3 +1103,74 @@ func init() {
 			{File: "server.go", Old: `			s.Add(1)
 			go s.serve(ctx, conn)`, New: `			go s.serve(ctx, conn)`}}})
 }
+
+func init() {
+	addMutant(Mutant{Name: "c15-config-value-receiver", Props: []string{"C15"}, Rule: "R-GOFIELD", KeySub: "yaml.YAML.ServerConfig",
+		Why:   "the repaired value receiver comes back: every Config() call in the update loop copies the loader struct while the watcher goroutine assigns its ServerConfig field",
+		Edits: []Edit{{File: "cmds/server/loader/yaml/yaml.go", Old: `func (l *YAML) Config() chan config.ServerConfig {`, New: `func (l YAML) Config() chan config.ServerConfig {`}}})
+	addMutant(Mutant{Name: "c15-loader-generation-counter", Props: []string{"C15"}, Rule: "R-GOFIELD", KeySub: "loader.Loader.generation",
+		Why: "the update goroutine counts reloads in a Loader field; Get (value receiver, called from every connection goroutine) copies the struct",
+		Edits: []Edit{{File: "cmds/server/loader/loader.go", Old: `	query              chan queryGet
+	warm               chan struct{}
+}`, New: `	query              chan queryGet
+	warm               chan struct{}
+	generation         int
+}`},
+			{File: "cmds/server/loader/loader.go", Old: `			buildUpdate.Inc()
+			// notify that we are warmed`, New: `			buildUpdate.Inc()
+			l.generation++
+			// notify that we are warmed`}}})
+	addMutant(Mutant{Name: "c15-watcher-reload-stamp", Props: []string{"C15"}, Rule: "R-GOFIELD", KeySub: "fsnotify.Watcher.reloads",
+		Why: "the watcher goroutine counts reloads in a field that Config(), called from the update goroutine, reads",
+		Edits: []Edit{{File: "cmds/server/loader/fsnotify/fsnotify.go", Old: `	watchman *fsnotify.Watcher
+`, New: `	watchman *fsnotify.Watcher
+	reloads  int
+`},
+			{File: "cmds/server/loader/fsnotify/fsnotify.go", Old: `				pending = 0
+`, New: `				pending = 0
+				w.reloads++
+`},
+			{File: "cmds/server/loader/fsnotify/fsnotify.go", Old: `func (w *Watcher) Config() chan config.ServerConfig {
+`, New: `func (w *Watcher) Config() chan config.ServerConfig {
+	if w.reloads > 1000 {
+		w.Debugf(w.ctx, "many reloads")
+	}
+`}}})
+	addMutant(Mutant{Name: "benign-watcher-field-before-go", Benign: true, Props: []string{"C15", "C16"},
+		Why: "the watcher records the watched path in a field before it starts its goroutine, which reads it",
+		Edits: []Edit{{File: "cmds/server/loader/fsnotify/fsnotify.go", Old: `	watchman *fsnotify.Watcher
+`, New: `	watchman *fsnotify.Watcher
+	dir      string
+`},
+			{File: "cmds/server/loader/fsnotify/fsnotify.go", Old: `	w.watchman = watcher
+	go w.watch(path)`, New: `	w.watchman = watcher
+	w.dir = filepath.Dir(path)
+	go w.watch(path)`},
+			{File: "cmds/server/loader/fsnotify/fsnotify.go", Old: `	w.Infof(w.ctx, "watching %s", base)`, New: `	w.Infof(w.ctx, "watching %s in %s", base, w.dir)`}}})
+}
+
+func init() {
+	addMutant(Mutant{Name: "c07-user-validator-relaxed", Props: []string{"C07"}, Rule: "R-ECHO", KeySub: "reply-text",
+		Why: "the user name validator accepts any UTF-8: the denial replies echo the name into an ASCII-only server_msg, the encoder refuses the reply, the request gets none",
+		Edits: []Edit{{File: "authenticate_fields.go", Old: `func (t AuthenUser) Validate(condition interface{}) error {
+	// https://datatracker.ietf.org/doc/html/rfc8907#section-3.6
+	if isAllASCII(string(t)) {
+		return nil
+	}`, New: `func (t AuthenUser) Validate(condition interface{}) error {
+	// https://datatracker.ietf.org/doc/html/rfc8907#section-3.6
+	if isAllASCII(string(t)) || len(t) < 64 {
+		return nil
+	}`}}})
+	addMutant(Mutant{Name: "c07-reply-text-non-ascii-constant", Props: []string{"C07"}, Rule: "R-ECHO", KeySub: "reply-text",
+		Why: "a typographic dash in an authorization denial text: AuthorServerMsg is ASCII-only, the reply never marshals",
+		Edits: []Edit{{File: "cmds/server/config/aaa.go", Old: `tq.SetAuthorReplyServerMsg("authorization denied")`, New: `tq.SetAuthorReplyServerMsg("authorization denied – no authorizer")`}}})
+	addMutant(Mutant{Name: "c07-reply-echoes-port-unvalidated-path", Props: []string{"C07"}, Rule: "R-ECHO", KeySub: "reply-text",
+		Why: "the accounting denial echoes the raw request body instead of a validated field",
+		Edits: []Edit{{File: "cmds/server/handlers/acct.go", Old: `fmt.Sprintf("failed to lookup user [%s] for accounting login", string(body.User))`, New: `fmt.Sprintf("failed to lookup user [%s] for accounting login", string(request.Body[8:]))`}}})
+	addMutant(Mutant{Name: "c19-status-validated-before-length-test", Props: []string{"C19", "C07"}, Rule: "R-SIBLING", KeySub: "AuthorReply:mismatch-producer",
+		Why: "a decoder returns a content error before the length-sum test: a wrong-key body fails it first, is not counted, and reaches a handler",
+		Edits: []Edit{{File: "authorize.go", Old: `	if a.Len() != serverMsgLen+dataLen+totalArgLen {`, New: `	if err := a.Status.Validate(nil); err != nil {
+		return err
+	}
+	if a.Len() != serverMsgLen+dataLen+totalArgLen {`}}})
+}
